@@ -790,14 +790,24 @@ func c15describe(cs c15case, o *c15obs) string {
 	for i, c := range o.Calls {
 		fmt.Fprintf(&sb, "  call#%d %s epoch=%d state=%q idxs=%v at=%s ret=%s ok=%v\n", i, c.Kind, c.Epoch, c.State, c.Idxs, c.TCall, c.TRet, c.OK)
 	}
-	for _, tk := range o.Ticks {
+	tks := append([]c15tick(nil), o.Ticks...)
+	sort.SliceStable(tks, func(i, j int) bool { return tks[i].At < tks[j].At || (tks[i].At == tks[j].At && tks[i].Slot < tks[j].Slot) })
+	for _, tk := range tks {
 		fmt.Fprintf(&sb, "  tick slot=%d at=%s (slot start %s)\n", tk.Slot, tk.At, c15slotStart(cs, tk.Slot))
 	}
 	if o.ReorgDone {
 		fmt.Fprintf(&sb, "  reorg event at=%s\n", o.ReorgAt)
 	}
 	tr := append([]c15trig(nil), o.Trigs...)
-	sort.SliceStable(tr, func(i, j int) bool { return tr[i].At < tr[j].At })
+	sort.SliceStable(tr, func(i, j int) bool {
+		if tr[i].At != tr[j].At {
+			return tr[i].At < tr[j].At
+		}
+		if tr[i].Duty.Slot != tr[j].Duty.Slot {
+			return tr[i].Duty.Slot < tr[j].Duty.Slot
+		}
+		return tr[i].Duty.Type < tr[j].Duty.Type
+	})
 	for _, x := range tr {
 		var l []string
 		for pk, d := range x.Defs {
